@@ -185,9 +185,21 @@ func genC08Typed(e *emitter, tier string) {
 			continue
 		}
 		sl, sr := sexpSet(fsL), sexpSet(fsR)
+		// independently built twins: a set operand must stay structurally what it was (an
+		// empty child node left behind by a lookup shows in Equals, not in the listed paths)
+		twin := func(s *fieldpath.Set) *fieldpath.Set {
+			t := fieldpath.NewSet()
+			s.Iterate(func(p fieldpath.Path) { t.Insert(p.Copy()) })
+			return t
+		}
+		twinL, twinR := twin(fsL), twin(fsR)
 		ops := 0
 		func() {
 			defer func() { recover() }()
+			tl.ExtractItems(fsR)
+			tl.ExtractItems(fsR, typed.WithAppendKeyFields())
+			tl.RemoveItems(fsL)
+			ops += 3
 			tl.Merge(tr2)
 			ops++
 			tl.Compare(tr2)
@@ -211,7 +223,8 @@ func genC08Typed(e *emitter, tier string) {
 			value.Compare(tl.AsValue(), tr2.AsValue())
 			ops += 2
 		}()
-		same := ls == sexpVal(tl.AsValue()) && rs == sexpVal(tr2.AsValue()) && sl == sexpSet(fsL) && sr == sexpSet(fsR)
+		same := ls == sexpVal(tl.AsValue()) && rs == sexpVal(tr2.AsValue()) && sl == sexpSet(fsL) && sr == sexpSet(fsR) &&
+			fsL.Equals(twinL) && twinL.Equals(fsL) && fsR.Equals(twinR) && twinR.Equals(fsR)
 		e.line(fmt.Sprintf("(c08.typed %d %s)", ops, sexpBool(same)))
 	}
 }
